@@ -4,12 +4,19 @@ import sys, os, re, shutil, subprocess, tempfile, json, time, concurrent.futures
 sys.path.insert(0, '/verif/selftest')
 from cases import MUTANTS, BENIGN
 ENV = dict(os.environ, GOFLAGS='-mod=mod', GOPROXY='off', GOSUMDB='off', GOTOOLCHAIN='local')
-only = sys.argv[1:] 
+args = sys.argv[1:]
+prop_filter = None
+REPO = '/repo'
+if '--property' in args:
+    i = args.index('--property'); prop_filter = args[i+1]; del args[i:i+2]
+if '--repo' in args:
+    i = args.index('--repo'); REPO = args[i+1]; del args[i:i+2]
+only = args
 def scratch():
     d = tempfile.mkdtemp(prefix='flytself.')
-    for f in os.listdir('/repo'):
+    for f in os.listdir(REPO):
         if f.endswith('.go') or f in ('go.mod', 'go.sum'):
-            shutil.copy('/repo/' + f, d)
+            shutil.copy(os.path.join(REPO, f), d)
     return d
 def apply(d, edits):
     for (f, old, new) in edits:
@@ -54,6 +61,8 @@ def run_case(case, benign=False):
     finally:
         shutil.rmtree(d, ignore_errors=True)
 jobs = [(c, False) for c in MUTANTS if not only or any(o in c[0] for o in only)] + [(c, True) for c in BENIGN if not only or any(o in c[0] for o in only)]
+if prop_filter:
+    jobs = [(c, b) for (c, b) in jobs if (not b and c[1] == prop_filter)]
 t0 = time.time()
 bad = 0
 with concurrent.futures.ThreadPoolExecutor(max_workers=4) as ex:
